@@ -584,3 +584,126 @@ Proof.
     split; [rewrite Qred_correct; rewrite clampq_idem; reflexivity|]. split; reflexivity. }
   repeat split; reflexivity.
 Qed.
+
+(* ---- the remaining commands, exactly ---- *)
+
+Lemma ctor_spec i1 i2 en :
+  match motor_ctor i1 i2 en with
+  | inl m => m = mkMotor (i1, i2, en) 0 false Coast 0 LastOther /\
+             exists a b c, zof i1 = Some a /\ zof i2 = Some b /\ zof en = Some c /\ a <> b /\ a <> c /\ b <> c
+  | inr TypeError => zof i1 = None \/ zof i2 = None \/ zof en = None
+  | inr ValueError => exists a b c, zof i1 = Some a /\ zof i2 = Some b /\ zof en = Some c /\ (a = b \/ a = c \/ b = c)
+  end.
+Proof.
+  destruct (motor_ctor i1 i2 en) as [m|[|]] eqn:E.
+  - apply ctor_accepts. exact E.
+  - unfold motor_ctor in E. destruct (zof i1) as [a|]; [|discriminate].
+    destruct (zof i2) as [b|]; [|discriminate]. destruct (zof en) as [c|]; [|discriminate].
+    destruct ((a =? b) || (a =? c) || (b =? c))%Z eqn:B; [|discriminate].
+    exists a, b, c. repeat split; try reflexivity.
+    apply orb_true_iff in B as [B|B]; [apply orb_true_iff in B as [B|B]|]; apply Z.eqb_eq in B; tauto.
+  - unfold motor_ctor in E. destruct (zof i1) as [a|]; [|left; reflexivity].
+    destruct (zof i2) as [b|]; [|right; left; reflexivity]. destruct (zof en) as [c|]; [|right; right; reflexivity].
+    destruct ((a =? b) || (a =? c) || (b =? c))%Z; discriminate.
+Qed.
+
+Lemma set_speed_exact m v q :
+  qof v = Some q ->
+  let r := mstep m (MSetSpeed v) in
+  let m' := mstate r in
+  mresult r = Ok MNone /\
+  speed m' == clampq q /\
+  applied m' == (if inverted m then - clampq q else clampq q) /\
+  mmode m' = (if Qeqb (clampq q) 0 then Coast else Drive) /\
+  mevents r = [MLvl (speed m') (applied m') (mmode m')] /\
+  ghost m' = LastOther /\ inverted m' = inverted m /\ pins m' = pins m.
+Proof.
+  intro Hq. cbn zeta. unfold mstate, mevents, mresult. cbn [mstep]. unfold clamp_speed. rewrite Hq.
+  cbn. rewrite clampq_idem.
+  split; [reflexivity|]. split; [apply Qred_correct|].
+  split; [destruct (inverted m); rewrite Qred_correct; reflexivity|].
+  split.
+  { destruct (inverted m).
+    - rewrite (Qeqb_compat (- Qred (clampq q)) (- clampq q) 0) by (rewrite Qred_correct; reflexivity).
+      destruct (Qeqb (- clampq q) 0) eqn:A; destruct (Qeqb (clampq q) 0) eqn:B; try reflexivity.
+      + apply Qeqb_true in A. apply Qeqb_false in B. exfalso. apply B. lra.
+      + apply Qeqb_false in A. apply Qeqb_true in B. exfalso. apply A. lra.
+    - rewrite (Qeqb_compat (Qred (clampq q)) (clampq q) 0) by (apply Qred_correct). reflexivity. }
+  repeat split; reflexivity.
+Qed.
+
+Lemma backward_exact m ov q :
+  qof (dflt_back ov) = Some q ->
+  let r := mstep m (MBackward ov) in
+  let m' := mstate r in
+  mresult r = Ok MNone /\
+  speed m' == - qabs (clampq q) /\ speed m' <= 0 /\
+  applied m' == (if inverted m then qabs (clampq q) else - qabs (clampq q)) /\
+  ghost m' = LastOther /\ inverted m' = inverted m /\ pins m' = pins m.
+Proof.
+  intro Hq. cbn zeta. unfold mstate, mevents, mresult. cbn [mstep]. unfold clamp_speed. rewrite Hq.
+  cbn. destruct (clampq_bounds q) as [B1 B2].
+  destruct (qabs_le1 (clampq q) (conj B1 B2)) as [A1 A2].
+  assert (Hid : clampq (- qabs (clampq q)) = - qabs (clampq q)) by (apply clampq_id; lra).
+  rewrite Hid.
+  split; [reflexivity|]. split; [apply Qred_correct|].
+  split; [rewrite Qred_correct; lra|].
+  split; [destruct (inverted m); rewrite Qred_correct; ring|].
+  repeat split; reflexivity.
+Qed.
+
+Lemma stop_coast_exact m :
+  mstep m MStop = (mkMotor (pins m) 0 (inverted m) Brake 0 LastStop, [MLvl 0 0 Brake], Ok MNone) /\
+  mstep m MCoast = (mkMotor (pins m) 0 (inverted m) Coast 0 LastOther, [MLvl 0 0 Coast], Ok MNone).
+Proof. split; reflexivity. Qed.
+
+Lemma getters_pure m :
+  mstep m MGetSpeed = (m, [], Ok (MFloat (speed m))) /\
+  mstep m MGetApplied = (m, [], Ok (MFloat (applied m))) /\
+  mstep m MIsInverted = (m, [], Ok (MBool (inverted m))) /\
+  mstep m MGetMode = (m, [], Ok (MMode (mmode m))).
+Proof. repeat split; reflexivity. Qed.
+
+(* stop(); invert() ends in coast, with the "last command" no longer a stop (A.4) *)
+Lemma stop_then_invert m :
+  let m' := mstate (mstep (mstate (mstep m MStop)) MInvert) in
+  mmode m' = Coast /\ speed m' = 0 /\ applied m' == 0 /\ ghost m' = LastOther /\
+  inverted m' = negb (inverted m).
+Proof.
+  cbn zeta. unfold mstate. cbn. destruct (inverted m); cbn; repeat split; reflexivity.
+Qed.
+
+(* the whole statement of the property about a reachable motor, in one place *)
+Lemma motor_reachable_statement i1 i2 en m0 ops :
+  motor_ctor i1 i2 en = inl m0 ->
+  let m := mrun ops m0 in
+  (-(1) <= speed m /\ speed m <= 1) /\
+  applied m == (if inverted m then - speed m else speed m) /\
+  (mmode m = Drive <-> ~ applied m == 0) /\
+  (applied m == 0 -> (mmode m = Brake <-> ghost m = LastStop) /\ (mmode m = Coast <-> ghost m = LastOther)) /\
+  pins m = (i1, i2, en).
+Proof.
+  intro H. cbn zeta. destruct (motor_reachable_inv i1 i2 en m0 ops H) as [Hinv Hp].
+  destruct (mode_clause _ Hinv) as [M1 M2]. destruct Hinv as (Hs & Ha & _).
+  split; [exact Hs|]. split; [exact Ha|]. split; [exact M1|]. split; [exact M2 | exact Hp].
+Qed.
+
+(* the ghost over a whole history: class of the last successful command, LastOther if none *)
+Fixpoint last_cmd (m : motor) (ops : list mop) (g : lastcmd) : lastcmd :=
+  match ops with
+  | [] => g
+  | op :: r =>
+      let g' := match mresult (mstep m op), cmd_class op with
+                | Ok _, Some c => c
+                | _, _ => g
+                end in
+      last_cmd (mstate (mstep m op)) r g'
+  end.
+
+Lemma ghost_run ops : forall m, ghost (mrun ops m) = last_cmd m ops (ghost m).
+Proof.
+  induction ops as [|op ops IH]; intro m.
+  - reflexivity.
+  - unfold mrun. cbn [fold_left last_cmd]. fold (mrun ops (mstate (mstep m op))).
+    rewrite IH. rewrite ghost_meaning. reflexivity.
+Qed.
